@@ -160,13 +160,60 @@ pub enum Obs {
     Drop(Vec<HCall>, Vec<HCall>, Snapshot),
 }
 
-fn roundtrip_spans(spans: &PersistedSpans) -> PersistedSpans {
-    let text = serde_json::to_string(spans).expect("serialize spans");
-    serde_json::from_str(&text).expect("deserialize spans")
+/// Encodes to JSON and decodes again; the decoder alternates (by the parity of the text length)
+/// between the borrowing one (`from_str`) and the owning one (`from_reader`): persisted state is
+/// read from files and sockets as often as from strings.
+pub fn json_roundtrip<T: serde::Serialize + serde::de::DeserializeOwned>(x: &T) -> Result<T, String> {
+    let text = serde_json::to_string(x).map_err(|e| format!("serialize: {e}"))?;
+    if text.len() % 2 == 0 {
+        serde_json::from_str(&text).map_err(|e| format!("from_str: {e}"))
+    } else {
+        serde_json::from_reader(text.as_bytes()).map_err(|e| format!("from_reader: {e}"))
+    }
 }
-fn roundtrip_md(md: &PersistedMetadata) -> PersistedMetadata {
-    let text = serde_json::to_string(md).expect("serialize metadata");
-    serde_json::from_str(&text).expect("deserialize metadata")
+
+/// A subscriber that is NOT the host: it answers "not interested" to everything and counts what it
+/// is told.  Every second restored receiver is constructed while this one is the default dispatcher
+/// (a host that rebuilds its receivers while loading state, before its subscriber is installed): what
+/// a receiver relays goes to the dispatcher that is current when the event is RECEIVED.
+#[derive(Clone, Default)]
+pub struct Decoy(pub Arc<std::sync::atomic::AtomicUsize>);
+
+impl Subscriber for Decoy {
+    fn register_callsite(&self, _: &'static Metadata<'static>) -> Interest {
+        Interest::never()
+    }
+    fn enabled(&self, _: &Metadata<'_>) -> bool {
+        false
+    }
+    fn new_span(&self, _: &tracing_core::span::Attributes<'_>) -> tracing_core::span::Id {
+        self.0.fetch_add(1, std::sync::atomic::Ordering::SeqCst);
+        tracing_core::span::Id::from_u64(0xdec0_dec0)
+    }
+    fn record(&self, _: &tracing_core::span::Id, _: &tracing_core::span::Record<'_>) {
+        self.0.fetch_add(1, std::sync::atomic::Ordering::SeqCst);
+    }
+    fn record_follows_from(&self, _: &tracing_core::span::Id, _: &tracing_core::span::Id) {
+        self.0.fetch_add(1, std::sync::atomic::Ordering::SeqCst);
+    }
+    fn event(&self, _: &tracing_core::Event<'_>) {
+        self.0.fetch_add(1, std::sync::atomic::Ordering::SeqCst);
+    }
+    fn enter(&self, _: &tracing_core::span::Id) {
+        self.0.fetch_add(1, std::sync::atomic::Ordering::SeqCst);
+    }
+    fn exit(&self, _: &tracing_core::span::Id) {
+        self.0.fetch_add(1, std::sync::atomic::Ordering::SeqCst);
+    }
+}
+
+/// Builds a restored receiver; every second one (by `n`) under the decoy dispatcher.
+pub fn restore_receiver(n: u32, md: PersistedMetadata, spans: PersistedSpans, local: LocalSpans) -> TracingEventReceiver {
+    if n % 2 == 0 {
+        TracingEventReceiver::new(md, spans, local)
+    } else {
+        tracing::subscriber::with_default(Decoy::default(), || TracingEventReceiver::new(md, spans, local))
+    }
 }
 
 /// Drops the receiver as a local of a frame that a panic unwinds (`std::thread::panicking()` is true
@@ -188,6 +235,7 @@ pub fn run_history(steps: &[Step], nonce: &str) -> Vec<Obs> {
         let mut saved_spans = PersistedSpans::default();
         let mut receiver = TracingEventReceiver::default();
         let mut drops = 0u32;
+        let mut restores = 0u32;
         for step in steps {
             match step {
                 Step::Recv(ev) => {
@@ -220,12 +268,20 @@ pub fn run_history(steps: &[Step], nonce: &str) -> Vec<Obs> {
                     let mark = rec.mark();
                     let (spans, local) = receiver.persist();
                     let exits = rec.since(mark);
-                    let spans = roundtrip_spans(&spans);
-                    md = roundtrip_md(&md);
+                    let (spans, md2) = match (json_roundtrip(&spans), json_roundtrip(&md)) {
+                        (Ok(s), Ok(m)) => (s, m),
+                        (Err(e), _) | (_, Err(e)) => {
+                            // state written by this build that this build cannot read back
+                            out.push(Obs::Recv(Outcome::OtherError(format!("persisted state: {e}")), exits, Snapshot::default()));
+                            return;
+                        }
+                    };
+                    md = md2;
                     saved_spans = spans.clone();
                     let local = if *keep { local } else { LocalSpans::default() };
                     let mark = rec.mark();
-                    receiver = TracingEventReceiver::new(md.clone(), spans, local);
+                    restores += 1;
+                    receiver = restore_receiver(restores, md.clone(), spans, local);
                     let regs = rec.since(mark);
                     // the persisted spans / metadata are observed through the restored receiver
                     let persisted = receiver.verif_snapshot();
@@ -243,7 +299,8 @@ pub fn run_history(steps: &[Step], nonce: &str) -> Vec<Obs> {
                     }
                     let calls = rec.since(mark);
                     let mark = rec.mark();
-                    receiver = TracingEventReceiver::new(md.clone(), saved_spans.clone(), LocalSpans::default());
+                    restores += 1;
+                    receiver = restore_receiver(restores, md.clone(), saved_spans.clone(), LocalSpans::default());
                     let regs = rec.since(mark);
                     out.push(Obs::Drop(calls, regs, receiver.verif_snapshot()));
                 }
